@@ -26,3 +26,21 @@ PROP = {
     },
 }
 PROP.setdefault("pre", []).append(facts.make_step(['cache.stale.cases', 'cache.update.conditions', 'cache.remove.cond']))
+
+# --- round 2 (builder bC02H): headline clause over whole API histories (Props/C02Hist.lean, Lemmas/CacheHist.lean)
+PROP["modules"].append("Gnmi.Props.C02Hist")
+PROP["theorems"] += ["Gnmi.C02." + t for t in [
+    "stored_is_max_accepted", "stored_is_max_accepted_from", "stored_is_last_accepted", "acceptedSince_mem",
+    "rejected_unit_not_accepted", "rejected_never_changes_leaf",
+    "stored_is_max_accepted_withServerName", "runW_tr", "stepW_eq_step"]] + [
+    "Gnmi.Cache.run_tr", "Gnmi.Cache.step_tr", "Gnmi.Cache.gnmiUpdate_tr", "Gnmi.Cache.reset_tr",
+    "Gnmi.Cache.updateMetadata_tr", "Gnmi.Cache.Tr.upd", "Gnmi.Cache.Tr.remove1", "Gnmi.Cache.Tr.delete"]
+PROP["manifest"]["level_text"] += (
+    " Headline clause over whole histories (stored_is_max_accepted): for every history of cache API calls (State.run over GnmiUpdate of "
+    "any shape, Sync, Connect, ConnectError, Reset, Add, Remove, UpdateMetadata, any number of targets, any clock and configuration), every "
+    "target T and leaf index k, the list A of update units for (T,k) that the cache accepted since k was last removed (read off the "
+    "history's unit log by a fold that never looks at a tree: a delete covering k newer than the last accepted unit, Reset of its subtree, "
+    "Remove/Add of T empty it) satisfies: A empty => leaf absent; otherwise the stored notification IS A's last element; every unit in A has "
+    "timestamp <= the stored one; and an API call whose units for the target are all rejected leaves the leaf and A unchanged "
+    "(rejected_never_changes_leaf). stored_is_max_accepted_withServerName: the same for histories whose Add is State.addWith (the "
+    "driver's Add, caches created WithServerName).")
